@@ -316,6 +316,8 @@ class Gen:
             add("+", lambda g, sc, d: C(r.choice(("+", "*")), *[g("num") for _ in range(r.choice((2, 2, 3, 4, 6)))]))
             add("-", lambda g, sc, d: C("-", *[g("num") for _ in range(r.choice((1, 2)))]))
             add("/", lambda g, sc, d: C(r.choice(("/", "%")), g("num"), g("num")))
+            # "if the second argument is 0 will return nothing": zero has several spellings (0, 0.0, -0, -0.0, 0e5)
+            add("/", lambda g, sc, d: C(r.choice(("/", "%")), g("num"), r.choice((("raw", "-0"), ("lit", 0), ("lit", 0.0), ("lit", -0.0)))))
             add("abs", lambda g, sc, d: C(r.choice(("abs", "round", "ceil", "floor")), g("num")))
             add("size", lambda g, sc, d: C("size", g(r.choice(("arr:num", "obj", "str", "arr:str")))))
             add("sum", lambda g, sc, d: C("sum", g("arr:num")))
